@@ -370,7 +370,8 @@ class MetadorMeta:
             return None  # not found
 
         # get class of schema and parse object
-        schema_class = self._require_schema(schema_name, schema_ver)
+        # (reading through an auxiliary parent schema is fine, only attaching is not)
+        schema_class = schemas._get_unsafe(schema_name, schema_ver)
         if obj := self._get_raw(compat_schema.name, compat_schema.version):
             return cast(S, self._parse_obj(schema_class, obj.node[()]))
         return None
